@@ -294,9 +294,9 @@ theorem child_in_primitive_rejected (e : BEnv) (Γ : Ctx) (cfg : ParserConfig) (
 
 /-- the same under a `StandardNode` (an `xsi:type` naming a builtin datatype) -/
 theorem child_in_standard_rejected (e : BEnv) (Γ : Ctx) (cfg : ParserConfig) (var : XmlVar) (dt : PT)
-    (ns : NsMap) (nillable derived : Bool) (q : QN) (a : List (QN × Str)) (n : NsMap) (t tl : Option Str)
+    (ns : NsMap) (nillable derived mixed : Bool) (q : QN) (a : List (QN × Str)) (n : NsMap) (t tl : Option Str)
     (u : Tree) (us : List Tree) :
-    parseNode e Γ cfg (.standard var dt ns nillable derived) (.node q a n t (u :: us) tl)
+    parseNode e Γ cfg (.standard var dt ns nillable derived mixed) (.node q a n t (u :: us) tl)
       = .error (.context "StandardNode node doesn't support child nodes!") := by
   simp [parseNode]
 
